@@ -14,6 +14,8 @@ func init() {
 }
 
 func runC05(r *engine.Run) {
+	r.Rule("WHO-prune", "the stores that keep no dead-node records (MemoryNodeDB, LevelNodeDB) delete nothing in PruneBelowVersion: pruning by a node's version removes nodes that later roots still reach")
+	r.Rule("REF-poolput", "see C16: no memory of a pooled object leaves a function whose deferred Put hands the object back (the serialised dead-node record of a round must not live in a pooled buffer that the next round's encoding overwrites while the store still reads it)")
 	r.Rule("DOM-takeover", "see C04: MergeDB installs the root it is given and iterates over the donor store on every path: a follower that takes over the dead-node list of a state change but keeps its old root (an empty new root skipped) reports reachable nodes as dead")
 	r.Rule("DOM-cancel", "AddChange removes the new node's hash from the dead set (delete(cc.Deletes, newNode.GetHash())) on every path from entry to every return: re-created content is never left recorded as dead; dead records are keyed by the hash of the node they hold")
 	r.Rule("FRESH-bytes", "see C03: the byte slices handed out by the node accessors (MarshalMsg, Encode, GetHashBytes, GetValueBytes in core/util) are new buffers on every return: nil, make/conversion results, results of calls that produce new buffers, or appends to such; never a field, element, global or map entry. FRESH-node relies on this, and callers of GetNodeValueRaw own (and may overwrite) the slice they get")
@@ -58,6 +60,8 @@ func runC05(r *engine.Run) {
 	agreeMergeSnapshot(r, "AGREE-snapshot")
 	cloneDeep(r)
 	domTakeover(r, "DOM-takeover")
+	refPoolPut(r, "REF-poolput")
+	whoPrune(r, "WHO-prune")
 }
 
 func domCancel(r *engine.Run) {
